@@ -78,10 +78,22 @@ theorem noUnionList_mem : ∀ {ts : List Ty} {t : Ty}, noUnionList ts = true →
 theorem noUnionTy_setMeta (m : Meta) (t : Ty) : noUnionTy (t.setMeta m) = noUnionTy t := by
   cases t <;> simp [Ty.setMeta, noUnionTy]
 
-/-! ### DisjunctionWithNullToOptional on flat inputs -/
+/-! ### DisjunctionWithNullToOptional on flat inputs
+
+Since /repo fix 30da046 the pass returns `null | null` unchanged (it used to panic), so that union —
+a two-branch union with a null branch — survives; `FlatUnionsN` also excludes it. -/
+
+/-- a two-branch union made of null branches only -/
+def allNullPair (bs : List Ty) : Bool := isNullPair bs && (nonNullTypes bs).isEmpty
+
+def qFlatN : Q := { disjOk := fun bs => noUnionList bs && !allNullPair bs, idxOk := fun i => noUnionTy i }
+def FlatUnionsN := schemasAll (fun o => satTop qFlatN o.ty) (sat qFlatN)
+theorem FlatUnionsN_iff (S : Schemas) : FlatUnionsN S = true ↔ AllTop qFlatN S := by
+  simp [FlatUnionsN, schemasAll_eq_AllObj, AllTop]
+
 
 mutual
-theorem flat_nullToOptional : ∀ (t r : Ty), sat qFlat t = true →
+theorem flat_nullToOptional : ∀ (t r : Ty), sat qFlatN t = true →
     dvTy DisjunctionWithNullToOptional.hook t = .ok r → sat qNnp r = true
   | .scalar .., r, _, hr => by simp [dvTy] at hr; subst hr; simp [sat]
   | .ref .., r, _, hr => by simp [dvTy] at hr; subst hr; simp [sat]
@@ -116,7 +128,9 @@ theorem flat_nullToOptional : ∀ (t r : Ty), sat qFlat t = true →
   | .disj bs i m, r, h, hr => by
     simp only [dvTy] at hr
     simp only [sat, Bool.and_eq_true] at h
-    have hnu : noUnionList bs = true := h.1
+    have hd : (noUnionList bs && !allNullPair bs) = true := h.1
+    simp only [Bool.and_eq_true, Bool.not_eq_true'] at hd
+    have hnu : noUnionList bs = true := hd.1
     simp only [DisjunctionWithNullToOptional.hook] at hr
     split at hr
     · rename_i hc
@@ -129,7 +143,13 @@ theorem flat_nullToOptional : ∀ (t r : Ty), sat qFlat t = true →
       · simp [hc]
       · simp [hc]
     · split at hr
-      · cases hr
+      · rename_i hcond _ hnn
+        -- `null | null` is excluded by the hypothesis
+        have hp : isNullPair bs = true := by
+          simp only [Bool.or_eq_true, bne_iff_ne, ne_eq, Bool.not_eq_true', not_or, Decidable.not_not, Bool.not_eq_false] at hcond
+          simp [isNullPair, hcond.1, hcond.2]
+        have : allNullPair bs = true := by simp [allNullPair, hp, hnn]
+        rw [this] at hd; cases hd.2
       · rename_i t rest hnn
         simp at hr; subst hr
         rw [setNullable, sat_setMeta]
@@ -141,11 +161,11 @@ theorem flat_nullToOptional : ∀ (t r : Ty), sat qFlat t = true →
       rw [hb] at hr; simp at hr; subst hr
       simp only [sat, Bool.or_eq_true] at h ⊢
       rcases h with h | h
-      · simp [qFlat] at h
+      · simp [qFlatN] at h
       · exact Or.inr (flat_nullToOptionalList bs bs' h hb)
     | err x => rw [hb] at hr; cases hr
     | panic x => rw [hb] at hr; cases hr
-theorem flat_nullToOptionalList : ∀ (ts rs : List Ty), satList qFlat ts = true →
+theorem flat_nullToOptionalList : ∀ (ts rs : List Ty), satList qFlatN ts = true →
     dvList DisjunctionWithNullToOptional.hook ts = .ok rs → satList qNnp rs = true
   | [], rs, _, hr => by simp [dvList] at hr; subst hr; simp [satList]
   | t :: ts, rs, h, hr => by
@@ -162,7 +182,7 @@ theorem flat_nullToOptionalList : ∀ (ts rs : List Ty), satList qFlat ts = true
       | panic x => rw [hts] at hr; cases hr
     | err x => rw [ht] at hr; cases hr
     | panic x => rw [ht] at hr; cases hr
-theorem flat_nullToOptionalFields : ∀ (fs rs : List Field), satFields qFlat fs = true →
+theorem flat_nullToOptionalFields : ∀ (fs rs : List Field), satFields qFlatN fs = true →
     dvFields DisjunctionWithNullToOptional.hook fs = .ok rs → satFields qNnp rs = true
   | [], rs, _, hr => by simp [dvFields] at hr; subst hr; simp [satFields]
   | f :: fs, rs, h, hr => by
@@ -182,7 +202,7 @@ theorem flat_nullToOptionalFields : ∀ (fs rs : List Field), satFields qFlat fs
     | panic x => rw [ht] at hr; cases hr
 end
 
-theorem flat_nullToOptional_top (t r : Ty) (h : satTop qFlat t = true)
+theorem flat_nullToOptional_top (t r : Ty) (h : satTop qFlatN t = true)
     (hr : dvTy DisjunctionWithNullToOptional.hook t = .ok r) : satTop qNnp r = true := by
   cases t with
   | struct fs g gi m =>
@@ -206,11 +226,11 @@ theorem flat_nullToOptional_top (t r : Ty) (h : satTop qFlat t = true)
   | bad k m => exact satTop_of_sat _ _ (flat_nullToOptional _ r (by simpa [satTop] using h) hr)
 
 /-- `post_DisjunctionWithNullToOptional` -/
-theorem post_DisjunctionWithNullToOptional (S S' : Schemas) (hf : FlatUnions S = true)
+theorem post_DisjunctionWithNullToOptional (S S' : Schemas) (hf : FlatUnionsN S = true)
     (h : DisjunctionWithNullToOptional.run S = .ok S') : NoNullPairUnion S' = true := by
   rw [NoNullPairUnion_iff]
-  refine visitPure_establishes qFlat qNnp (fun _ _ => dvTy DisjunctionWithNullToOptional.hook) ?_ S S'
-    ((FlatUnions_iff S).1 hf) h
+  refine visitPure_establishes qFlatN qNnp (fun _ _ => dvTy DisjunctionWithNullToOptional.hook) ?_ S S'
+    ((FlatUnionsN_iff S).1 hf) h
   intro cur s _ _ _
   exact ⟨flat_nullToOptional, flat_nullToOptional_top⟩
 
